@@ -430,16 +430,17 @@ type histIn struct {
 }
 
 type histOut struct {
-	ID         int        `json:"id"`
-	Obs        []int      `json:"obs,omitempty"`
-	Q          int        `json:"q"` // number of observations before the final cancel-all (quiescence point)
-	Notes      []string   `json:"notes,omitempty"`
-	SendMaxNs  int64      `json:"send_max_ns"`
-	G0         int        `json:"g0"`
-	G1         int        `json:"g1"`
-	SSERunning int        `json:"sse_running"` // goroutines still inside package sse at the end
-	Stress     *stressOut `json:"stress,omitempty"`
-	E2E        *e2eOut    `json:"e2e,omitempty"`
+	ID         int           `json:"id"`
+	Obs        []int         `json:"obs,omitempty"`
+	Q          int           `json:"q"` // number of observations before the final cancel-all (quiescence point)
+	Notes      []string      `json:"notes,omitempty"`
+	SendMaxNs  int64         `json:"send_max_ns"`
+	G0         int           `json:"g0"`
+	G1         int           `json:"g1"`
+	SSERunning int           `json:"sse_running"` // goroutines still inside package sse at the end
+	Stress     *stressOut    `json:"stress,omitempty"`
+	E2E        *e2eOut       `json:"e2e,omitempty"`
+	Contract   []contractRun `json:"contract,omitempty"`
 }
 
 func sseGoroutines() int {
@@ -815,6 +816,8 @@ func main() {
 			var out histOut
 			if in.Kind == "stress" {
 				out = runStress(in)
+			} else if in.Kind == "contract" {
+				out = runContract(in)
 			} else if in.Kind == "e2e" {
 				if in.E2E == nil {
 					in.E2E = &e2eIn{}
